@@ -41,6 +41,25 @@ def run(ctx) -> None:
         from ..skeletons import quick_family
         pats += [(sk.label, sk.yaml()) for sk in quick_family()]
     flags_end_to_end(ctx, "C01.R7.flags-end-to-end", pats)
+    # R7c: a rule without a config section (or with an empty one) compiled after a full-match rule is compiled as alone
+    from ._matchrules import compile_sequence_equals_fresh
+    strict = {"config": {"mnemonics-full-match": True, "operands-full-match": True}, "pattern": [{Sym("A1"): [Sym("B1")]}]}
+    plain = [{Sym("M1"): [Sym("O1"), Sym("O2")]}, Sym("M2")]
+    compile_sequence_equals_fresh(ctx, "C01.R7.flags-not-inherited", [
+        ("rule without a config section after a full-match rule", [strict, {"pattern": plain}]),
+        ("rule with an empty config section after a full-match rule", [strict, {"config": {}, "pattern": plain}]),
+        ("rule setting only one flag after a full-match rule", [strict, {"config": {"operands-full-match": False}, "pattern": plain}]),
+        ("full-match rule after a plain rule", [{"pattern": plain}, strict])])
+    # H: the k-th operand is the k-th comma-terminated field only if no field carries a ',' (shared with C10.F / C09.N1)
+    from ..normflow import decision_table
+    from .c10 import _raw_slot
+    for a, row, outs, raises in decision_table(make_interp(ctx.p)):
+        if a["has,"] and a["has("] and a["has)"]:
+            cls = "&".join(k for k, v in a.items() if v)
+            raw = [o for o in outs if _raw_slot(o)]
+            ctx.check(bool(outs) and not raw, "C01.H.operand-fields-comma-free", "OperandsParser._process_operand_elem",
+                      f"class[{cls}] -> {outs or raises}"[:220],
+                      f"an operand with ',' inside parentheses [{cls}] reaches the stream built from comma-split pieces only")
     # R8: the listing the verdict is about is the file's text as Python's text mode reads it
     from ._matchrules import assembly_text_unmodified
     assembly_text_unmodified(ctx, "C01.R8.listing-text-unmodified")
